@@ -100,3 +100,28 @@ func TestC01_NilValuePointer(t *testing.T) {
 		}
 	}
 }
+
+type c01Audit struct{ By string }
+
+func (a *c01Audit) Summary() string { return "by " + a.By }
+
+type c01Post struct {
+	Title string
+	*c01Audit
+}
+
+// C01 "the engine itself never panics … whatever the template asks for": a method promoted through a nil embedded
+// pointer can only be reached by dereferencing it (Go panics inside reflect's Call), and a context function that
+// panics took the process down as well. Both now end the execution with an error, as in text/template.
+func TestC01_PanicsOfCalledCodeAreErrors(t *testing.T) {
+	ctx := pongo2.Context{
+		"post": c01Post{Title: "two"},
+		"boom": func() string { panic("boom") },
+	}
+	for _, src := range []string{`{{ post.Summary }}`, `{{ boom() }}`} {
+		out, err := render(t, newSet(nil), src, ctx)
+		if err == nil {
+			t.Errorf("%s: got %q, want an execution error", src, out)
+		}
+	}
+}
